@@ -330,7 +330,7 @@ func (r *crashRunner) Exec(line string) string {
 			res = "err"
 		}
 	case "tick":
-		time.Sleep(time.Duration(r.delay)*time.Second + 350*time.Millisecond)
+		time.Sleep(time.Duration(r.delay)*time.Second + 700*time.Millisecond)
 	case "close":
 		if err := r.p.Close(); err != nil {
 			res = "err"
